@@ -261,6 +261,24 @@ def vmap_family():
     r = inner.repeat(n=3)
     tr = r.simulate(KEY, (0.2,))
     wf(tr, "repeat.simulate")
+    # a non-default mapped axis (square argument, so that a row/column mix-up is silent), index edits and their round trip
+    from genjax._src.core.generative.concepts import IndexRequest
+
+    @gen
+    def rowsum(col, s):
+        return normal(jnp.sum(col * jnp.arange(1.0, 4.0)), s) @ "x"
+    v1 = rowsum.vmap(in_axes=(1, None))
+    A = jnp.array([[0.1, 2.0, -1.0], [0.5, 0.3, 4.0], [-2.0, 1.0, 0.7]])
+    t1 = v1.simulate(KEY, (A, 1.0))
+    wf(t1, "vmap.simulate[in_axes=(1,None)]")
+    for pos in (0, 1, 2):
+        new, w, rd, bwd = v1.edit(KEY, t1, IndexRequest(jnp.array(pos), Update(C.kw(x=0.25))), Diff.no_change((A, 1.0)))
+        wf(new, f"vmap.edit_index[in_axes=(1,None), idx={pos}]")
+        if not close(w, new.get_score() - t1.get_score()):
+            fail("vmap.edit_index[in_axes=(1,None)]: weight != score change", pos=pos, w=w)
+        back, w2, _, _ = v1.edit(KEY, new, bwd, Diff.no_change((A, 1.0)))
+        if not (close(back.get_score(), t1.get_score()) and close(w2, -w) and close(back.get_choices()[pos, "x"], t1.get_choices()[pos, "x"])):
+            fail("vmap.edit_index[in_axes=(1,None)]: the backward request does not restore the trace with weight -w", pos=pos)
 
 
 def scan_family():
@@ -652,6 +670,151 @@ def diff_family():
                 fail("Diff.tree_diff(tree_primal(t), tree_tangent(t)) does not rebuild t's tags", tree=tags)
 
 
+def key_family():
+    """C04: distinct addresses / iterations / elements draw independent randomness, results are functions of (key, args).
+    Fair coin flips everywhere: any two distinct sites must agree with frequency 1/2 (4000 keys, tolerance 0.06); nested
+    callees (a static function, a vmap) sit at the sites where a derived key could be reused by a sibling"""
+    from genjax import flip
+
+    @gen
+    def inner():
+        return flip(0.5) @ "z"
+
+    @gen
+    def step(c, _):
+        x = flip(0.5) @ "x"
+        y = inner() @ "y"
+        v = flip.vmap()(jnp.full(4, 0.5)) @ "v"
+        w = flip(0.5) @ "w"
+        return c, x
+    model = step.scan(n=3)
+
+    @gen
+    def top():
+        v = flip.vmap()(jnp.full(4, 0.5)) @ "v"
+        b = flip(0.5) @ "b"
+        r = flip.repeat(n=4)(0.5) @ "r"
+        c = flip(0.5) @ "c"
+        s = model(0.0, None) @ "s"
+        d = flip(0.5) @ "d"
+        vv = flip.vmap().vmap()(jnp.full((2, 2), 0.5)) @ "vv"
+        return b
+
+    def draws(k):
+        ch = top.simulate(k, ()).get_choices()
+        out = {"b": ch["b"], "c": ch["c"], "d": ch["d"]}
+        for i in range(4):
+            out[f"v{i}"] = ch["v", i]
+            out[f"r{i}"] = ch["r", i]
+        for i in range(2):
+            for j in range(2):
+                out[f"vv{i}{j}"] = ch["vv", i, j]
+        for i in range(3):
+            out[f"s{i}x"], out[f"s{i}yz"], out[f"s{i}w"] = ch["s", i, "x"], ch["s", i, "y", "z"], ch["s", i, "w"]
+            for e in range(4):
+                out[f"s{i}v{e}"] = ch["s", i, "v", e]
+        return out
+    keys = jrand.split(jrand.key(3), 4000)
+    d = jax.vmap(draws)(keys)
+    d2 = jax.vmap(draws)(keys)
+    names = sorted(d)
+    for a in names:
+        if not bool(jnp.all(d[a] == d2[a])):
+            fail("simulate is not a function of (key, args)", site=a)
+        m = float(jnp.mean(d[a]))
+        if abs(m - 0.5) > 0.06:
+            fail("a fair flip does not come up True half of the time", site=a, freq=m)
+    M = jnp.stack([d[a].astype(float) for a in names])          # sites x keys
+    agree = (M @ M.T + (1 - M) @ (1 - M).T) / M.shape[1]
+    for i, a in enumerate(names):
+        for j in range(i + 1, len(names)):
+            if abs(float(agree[i, j]) - 0.5) > 0.06:
+                fail("two distinct sites do not draw independently (agreement frequency of two fair flips != 1/2)",
+                     site_a=a, site_b=names[j], agree=float(agree[i, j]))
+
+
+def marginal_family():
+    """C25: Marginal.random_weighted on the real code - exact marginals where they exist in closed form, the reciprocal
+    identity E[exp(-w) | sample] = 1/p(sample) on a finite discrete chain (20000 keys), agreement with estimate_logpdf"""
+    import tensorflow_probability.substrates.jax as tfp
+    from genjax import flip
+    N = tfp.distributions.Normal
+
+    @gen
+    def chain():
+        x = normal(0.0, 1.0) @ "x"
+        y = normal(x, 0.5) @ "y"
+        return y
+
+    @gen
+    def indep():
+        x = normal(0.0, 1.0) @ "x"
+        y = normal(1.0, 2.0) @ "y"
+        z = normal(-1.0, 0.5) @ "z"
+        return x + y + z
+    dens = {"x": N(0.0, 1.0), "y": N(1.0, 2.0), "z": N(-1.0, 0.5)}
+    for k in range(3):
+        key = jrand.key(k)
+        m = chain.marginal()
+        w, c = m.random_weighted(key)
+        if not close(w, m.estimate_logpdf(key, c)):
+            fail("Marginal (everything selected): weight != estimate_logpdf of the same sample", w=w, lp=m.estimate_logpdf(key, c))
+        if not close(w, N(0.0, 1.0).log_prob(c["x"]) + N(c["x"], 0.5).log_prob(c["y"])):
+            fail("Marginal (everything selected): weight != joint log-density", w=w)
+        w, c = chain.marginal(selection=S.at["x"]).random_weighted(key)
+        if not close(w, N(0.0, 1.0).log_prob(c["x"])):
+            fail("Marginal(select x): weight != exact marginal log p(x)", w=w, want=N(0.0, 1.0).log_prob(c["x"]))
+        for name, sel, kept in (("S[y]|S[z]", S.at["y"] | S.at["z"], "yz"), ("~S[x]", ~S.at["x"], "yz"), ("~(S[y]|S[z])", ~(S.at["y"] | S.at["z"]), "x"),
+                                ("~S[x]&~S[z]", ~S.at["x"] & ~S.at["z"], "y"), ("S[x]", S.at["x"], "x"), ("all", S.all(), "xyz")):
+            w, c = indep.marginal(selection=sel).random_weighted(key)
+            want = sum(dens[a].log_prob(c[a]) for a in kept)
+            if not close(w, want):
+                fail("Marginal over independent choices: weight != exact marginal of the returned choices", selection=name, w=w, want=want)
+            if any(a in c for a in "xyz" if a not in kept) or not all(a in c for a in kept):
+                fail("Marginal: returned choices are not exactly the selected ones", selection=name)
+
+    @gen
+    def disc():
+        x = flip(0.5) @ "x"
+        y = flip(jnp.where(x, 0.9, 0.1)) @ "y"
+        return y
+    my = disc.marginal(selection=S.at["y"])
+    ws, ys = jax.vmap(lambda k: (lambda w, c: (w, c["y"]))(*my.random_weighted(k)))(jrand.split(jrand.key(11), 20000))
+    for yv in (True, False):
+        sel = ys == yv
+        got = float(jnp.sum(jnp.where(sel, jnp.exp(-ws), 0.0)) / jnp.sum(sel))
+        if abs(got - 2.0) > 0.15:          # p(y) = 0.5 for both values
+            fail("Marginal(select y | x -> y): E[exp(-w) | y] != 1/p(y)", y=yv, got=got, want=2.0)
+
+
+def rejuvenate_family():
+    """C27: Rejuvenate.edit returns the Metropolis-Hastings log ratio (asymmetric, state-dependent proposal)"""
+    import tensorflow_probability.substrates.jax as tfp
+    from genjax._src.inference.requests.rejuvenate import Rejuvenate
+    N = tfp.distributions.Normal
+
+    @gen
+    def model():
+        x = normal(0.0, 1.0) @ "x"
+        y = normal(x, 0.5) @ "y"
+        return y
+
+    @gen
+    def prop(x):
+        return normal(x + 1.0, 0.3) @ "x"
+    for k in range(3):
+        key = jrand.key(k)
+        tr = model.simulate(key, ())
+        new, w, _, bwd = Rejuvenate(prop, lambda chm: (chm["x"],)).edit(jrand.key(100 + k), tr, Diff.no_change(()))
+        x0, x1 = tr.get_choices()["x"], new.get_choices()["x"]
+        want = new.get_score() - tr.get_score() + N(x1 + 1.0, 0.3).log_prob(x0) - N(x0 + 1.0, 0.3).log_prob(x1)
+        if not close(w, want):
+            fail("Rejuvenate: weight != MH log acceptance ratio", w=w, want=want)
+        if not close(new.get_choices()["y"], tr.get_choices()["y"]):
+            fail("Rejuvenate: a choice the proposal does not touch changed")
+        wf(new, "Rejuvenate.edit new trace")
+
+
 def pytree_family():
     """C21 (Pytree part): Const / Closure / tree_const on the real classes, flatten/unflatten, jit and vmap round trips of the
     repository's Pytree dataclasses, static fields absent from the leaves"""
@@ -789,7 +952,7 @@ def selection_family():
 
 FAMILIES = [
     (("C19.Mask.", "Mask._or_idx"), mask_algebra_family), (("C18.",), selection_family), ((".Diff.",), diff_family),
-    (("C21.",), pytree_family), (("C31.",), time_travel_family), (("C17.",), choice_map_family), (("C26.",), smc_family),
+    (("C04.",), key_family), (("C21.",), pytree_family), (("C25.", "Marginal"), marginal_family), (("C27.", "Rejuvenate"), rejuvenate_family), (("C31.",), time_travel_family), (("C17.",), choice_map_family), (("C26.",), smc_family),
     (("MaskCombinator", "MaskTrace"), mask_family), (("Distribution", "ExactDensity"), distribution_family),
     (("Dimap",), dimap_family), (("Switch",), switch_family), (("Vmap", "repeat"), vmap_family),
     (("Scan", "iterate", "accumulate", "reduce", "masked_iterate"), scan_family),
